@@ -45,7 +45,20 @@ def simplify_atoms(atoms):
             if red:
                 continue
         res.add(a)
-    return frozenset(res)
+    # a multiple of c that is at least c is a multiple of c that is not 0: `c <= x` is written `x != 0` when the set
+    # has `x % c == 0` (the same set of values, one spelling)
+    mults = {}
+    for a in res:
+        if a[0] == "cmp" and a[1] == "eq":
+            for p, q in ((a[3], a[4]), (a[4], a[3])):
+                if p == T.K(a[2], 0) and isinstance(q, tuple) and q[0] == "op" and q[1] == "urem" and T.is_k(q[4]):
+                    mults[q[3]] = q[4][2]
+    res2 = set()
+    for a in res:
+        if a[0] == "cmp" and a[1] == "ule" and T.is_k(a[3]) and mults.get(a[4]) == a[3][2]:
+            a = T.cmp("ne", a[2], a[4], T.K(a[2], 0))
+        res2.add(a)
+    return frozenset(res2)
 
 
 class VerifierModel:
